@@ -27,7 +27,7 @@ void verif_pt_violation(const char* what, const void* addr) __attribute__((weak)
 
 namespace {
 enum { TABSZ = 1 << 16 };
-struct Ent { const void* volatile addr; volatile int state; };   // 1 live, 2 dead
+struct Ent { const void* volatile addr; volatile int state; volatile int waiters; };   // 1 live, 2 dead; waiters = threads inside the real cond_wait
 Ent g_tab[TABSZ];
 
 inline size_t slot(const void* a) { return (size_t)(((uintptr_t)a >> 3) * 0x9e3779b97f4a7c15ULL >> 40) & (TABSZ - 1); }
@@ -72,6 +72,7 @@ template <typename F> F real(F& cache, const char* name, const char* ver) {
 
 #define REAL(ret, name, ver, ...) typedef ret (*name##_t)(__VA_ARGS__); static name##_t name##_real = 0; name##_t fn = real(name##_real, #name, ver)
 
+extern "C" int verif_pt_waiters(const void* cond) { Ent* e = lookup(cond, false); return e ? __atomic_load_n(&e->waiters, __ATOMIC_RELAXED) : 0; }
 extern "C" {
 int pthread_cond_init(pthread_cond_t* c, const pthread_condattr_t* a) { REAL(int, pthread_cond_init, "GLIBC_2.3.2", pthread_cond_t*, const pthread_condattr_t*); int r = fn(c, a); mark(c, 1); return r; }
 int pthread_cond_destroy(pthread_cond_t* c) { REAL(int, pthread_cond_destroy, "GLIBC_2.3.2", pthread_cond_t*); use(c, "cond_destroy-on-destroyed"); perturb(); int r = fn(c); mark(c, 2); return r; }
@@ -88,7 +89,9 @@ int pthread_cond_wait(pthread_cond_t* c, pthread_mutex_t* m) {
     ul(m); sched_yield(); lk(m); return 0;
   }
   perturb();
+  Ent* e = lookup(c, true); if (e) __atomic_fetch_add(&e->waiters, 1, __ATOMIC_RELAXED);   // still holding m: a later lock of m by another thread proves we are parked
   int r = fn(c, m);
+  if (e) __atomic_fetch_sub(&e->waiters, 1, __ATOMIC_RELAXED);
   perturb();
   return r;
 }
